@@ -463,6 +463,15 @@ def oracle_case(case, res=None, real=None):
             res.count('outside-assumptions')
         return None
     kind = case['kind']
+    if kind == 'deep':
+        # a depth-parameterised case is judged as the concrete case it stands for (same clauses:
+        # the call returns without an exception of any type, whitelist, nesting, re-parse); the
+        # report keeps the compact form
+        f = oracle_case(expand_deep(case), res, real)
+        if f:
+            f = {'case': case, 'what': 'at depth %d (%s via %s): %s' % (case['depth'], case['shape'], case['via'], f['what']),
+                 'expected': f['expected'], 'observed': _short(f['observed'])}
+        return f
     fails = []
 
     def bad(what, expected, observed):
@@ -662,8 +671,10 @@ def model_requests(case, real):
     return out
 
 
-def compare(cases, reals, res):
+def compare(cases, reals, res, labels=None):
+    """`labels`: what to report instead of the (large) concrete case"""
     reqs = []
+    labels = labels or cases
     for i, c in enumerate(cases):
         if has_surrogate(json.loads(json.dumps(c))):
             res.count('model:skipped-surrogate-input')
@@ -671,7 +682,7 @@ def compare(cases, reals, res):
         try:
             rs = model_requests(c, reals[i])
         except Exception as ex:  # noqa
-            res.disagreements.append({'stream': 'harness', 'case': c, 'model': None,
+            res.disagreements.append({'stream': 'harness', 'case': labels[i], 'model': None,
                                       'real': 'building the request raised %s: %s' % (exc_name(ex), ex)})
             continue
         for name, line, exp in rs:
@@ -692,7 +703,8 @@ def compare(cases, reals, res):
             pass
         res.streams[name] = res.streams.get(name, 0) + 1
         if norm(model) != norm(exp):
-            res.disagreements.append({'stream': name, 'case': cases[i], 'model': repr(model)[:600], 'real': repr(exp)[:600]})
+            res.disagreements.append({'stream': name, 'case': labels[i], 'model': _diff_window(repr(model), repr(exp))[0],
+                                      'real': _diff_window(repr(model), repr(exp))[1]})
 
 
 def norm(x):
@@ -894,6 +906,229 @@ def exhaustive_shard(arg):
     return res
 
 
+# ---------------------------------------------------------------------------------------
+# the `deep` stream: every iterated construct of the sanitizer at depths beyond the interpreter's
+# recursion limit (few cases, each large; both tiers).  The clause "never fails" must hold at
+# DEPTH too: a repeat-until-stable loop written recursively, a recursive descent over nested
+# elements, a regular expression that backtracks per layer -- none shows on small inputs.
+
+def _short(x, n=300):
+    t = x if isinstance(x, str) else json.dumps(x, sort_keys=True, default=repr)
+    return t if len(t) <= n else t[:n] + '... (%d characters)' % len(t)
+
+
+def _diff_window(a, b, n=300):
+    """two long texts: the windows around their first difference"""
+    if len(a) <= 2 * n and len(b) <= 2 * n:
+        return a, b
+    i = 0
+    m = min(len(a), len(b))
+    while i < m and a[i] == b[i]:
+        i += 1
+    lo = max(0, i - n // 2)
+    return ('@%d:' % lo) + a[lo:lo + n], ('@%d:' % lo) + b[lo:lo + n]
+
+
+def comment_layers(k):
+    """a text from which `k` successive passes of comment removal each remove something: removing
+    the comments of `t.replace('/*', '//**/*')` gives back `t` (every `/*` is split by a comment that
+    the scan meets first).  The length doubles per layer -- no text of feasible size needs more
+    than ~20 passes (unlike reference decoding, where one layer costs four characters)."""
+    t = '/**/'
+    for _ in range(k - 1):
+        t = t.replace('/*', '//**/*')
+    return t
+
+
+DEEP_SHAPES = {
+    # shape: vias
+    'amp-layers-href': ('html', 'raw'),          # '&' 'amp;'*D '#106;avascript:alert(1)' in a URI attribute
+    'amp-layers-title': ('html', 'raw'),         # ... in an attribute that is kept
+    'amp-layers-style': ('html', 'raw'),         # ... inside url( ) of a style attribute
+    'amp-layers-unsafe-attr': ('raw',),          # ... in an attribute that is dropped (decoded before the test)
+    'many-refs': ('html', 'raw'),                # D separate references in one value (one pass, long)
+    'comment-layers': ('css', 'raw'),            # `depth` = number of passes (text length 2^(depth+1))
+    'comment-layers-expression': ('css', 'raw'),  # the keyword is assembled by the last pass
+    'css-escape-chain': ('css', 'raw'),          # D escapes in a row, `\5c ` chains in front of `75 rl(`
+    'css-many-decls': ('css', 'raw'),            # D declarations, every third one unsafe
+    'css-many-urls': ('css', 'raw'),             # D url( ) tokens in one declaration, the last one unsafe
+    'nested-safe': ('html', 'raw'),              # D nested safe elements
+    'nested-unsafe-same': ('html', 'raw'),       # D nested unsafe elements of one name: the depth counter
+    'nested-mixed': ('html', 'raw'),             # safe and unsafe elements alternating
+    'nested-unsafe-by-attr': ('raw',),           # input type=password holding D safe inputs
+    'many-attrs': ('html', 'raw'),               # one element, D attributes (safe, unsafe, URI, style)
+    'long-value': ('html', 'raw'),               # values / text of 40*D characters, blanks inside a scheme
+    'many-siblings': ('html', 'raw'),            # a flat stream of 2*D elements
+    'stray-ends': ('raw',),                      # D END events without START, then D STARTs never closed
+}
+DEEP_LOG = ('comment-layers', 'comment-layers-expression')
+
+
+def deep_specs(seed, thorough):
+    """the cases of the deep stream: every shape x via at a depth just beyond the recursion limit
+    (seed-dependent) and, for half of them by rotation, at a second larger depth"""
+    import sys
+    rng = random.Random('%s/deep/C06' % (seed,))
+    limit = max(1000, sys.getrecursionlimit())
+    specs = []
+    style = {'safe_attrs': {'add': ['style']}}
+    names = sorted(DEEP_SHAPES)
+    for i, shape in enumerate(names):
+        for via in DEEP_SHAPES[shape]:
+            if shape in DEEP_LOG:
+                depths = [rng.randrange(9, 12)] + ([14] if thorough else [])
+            else:
+                depths = [limit + 60 + rng.randrange(0, 400)]
+                if thorough or (i + seed) % 2 == 0:
+                    depths.append(2 * limit + 500 + rng.randrange(0, 300))
+                if thorough and shape.startswith(('amp-layers', 'nested')):
+                    depths.append(6 * limit)
+            for d in depths:
+                cfg = style if ('style' in shape or 'css' in shape or 'comment' in shape or shape == 'many-attrs'
+                                or rng.random() < 0.3) else None
+                specs.append({'kind': 'deep', 'shape': shape, 'via': via, 'depth': d, 'cfg': cfg})
+    return specs
+
+
+def expand_deep(case):
+    """the concrete case (kind html / raw / css) a deep case stands for"""
+    shape, via, D, cfg = case['shape'], case['via'], case['depth'], case.get('cfg')
+    q = lambda n: ['', n]
+    layers = '&' + 'amp;' * D + '#106;avascript:alert(1)'
+
+    def elem_case(tag, attrs, inner_text='x'):
+        """one element with the attributes, by the parser or as events"""
+        if via == 'html':
+            esc = lambda v: v.replace('&', '&amp;').replace('"', '&quot;').replace('<', '&lt;')
+            # through the parser the text is what an author would write: the layers themselves
+            # are the escaping (html.parser and genshi's HTMLParser each take one off)
+            raw = lambda v: v.replace('"', '&quot;')
+            text = '<%s %s>%s</%s>' % (tag, ' '.join('%s="%s"' % (n, raw(v)) for n, v in attrs), inner_text, tag)
+            return {'kind': 'html', 'text': text, 'cfg': cfg}
+        return {'kind': 'raw', 'cfg': cfg,
+                'events': [['S', q(tag), [[q(n), v] for n, v in attrs]], ['T', inner_text, False], ['E', q(tag)]]}
+
+    def css_case(text):
+        if via == 'css':
+            return {'kind': 'css', 'text': text, 'cfg': cfg}
+        return {'kind': 'raw', 'cfg': cfg, 'events': [['S', q('p'), [[q('style'), text]]], ['T', 'x', False], ['E', q('p')]]}
+
+    def nest_case(tags, attrs_of=lambda i: [], tail=True):
+        """tags[0] > tags[1] > ... with a text in the innermost and after every END"""
+        if via == 'html':
+            parts = []
+            for i, t in enumerate(tags):
+                parts.append('<%s%s>' % (t, ''.join(' %s="%s"' % (n, v) for n, v in attrs_of(i))))
+            parts.append('in')
+            for t in reversed(tags):
+                parts.append('</%s>%s' % (t, 'a' if tail else ''))
+            return {'kind': 'html', 'text': '<div>' + ''.join(parts) + '</div>', 'cfg': cfg}
+        evs = [['S', q('div'), []]]
+        for i, t in enumerate(tags):
+            evs.append(['S', q(t), [[q(n), v] for n, v in attrs_of(i)]])
+        evs.append(['T', 'in', False])
+        for t in reversed(tags):
+            evs.append(['E', q(t)])
+            if tail:
+                evs.append(['T', 'a', False])
+        evs.append(['E', q('div')])
+        return {'kind': 'raw', 'events': evs, 'cfg': cfg}
+
+    if shape == 'amp-layers-href':
+        return elem_case('a', [('href', layers), ('title', 't')])
+    if shape == 'amp-layers-title':
+        return elem_case('p', [('title', layers)])
+    if shape == 'amp-layers-style':
+        return elem_case('p', [('style', 'color: red; background: url(' + layers + ')')])
+    if shape == 'amp-layers-unsafe-attr':
+        return elem_case('p', [('onclick', layers), ('class', 'c')])
+    if shape == 'many-refs':
+        return elem_case('a', [('href', '&#106;&#x61;&#118;&#97;' * D + 'script:alert(1)'), ('title', '&lt;&amp;' * D)])
+    if shape == 'comment-layers':
+        return css_case('color: red' + comment_layers(D) + '; width: 1px')
+    if shape == 'comment-layers-expression':
+        return css_case('width: e' + comment_layers(D) + 'xpression(alert(1)); color: u' + comment_layers(D - 1) + 'rl(javascript:x)')
+    if shape == 'css-escape-chain':
+        return css_case('color: ' + '\\5c ' * D + '75 rl(javascript:x); background: ' + '\\75 \\72 \\6c ' * (D // 3) + '(javascript:x); top: '
+                        + '\\65 ' * D)
+    if shape == 'css-many-decls':
+        return css_case(';'.join(('color: red', 'position: fixed', 'background: url(javascript:%d)' % i)[i % 3] for i in range(D)))
+    if shape == 'css-many-urls':
+        return css_case('background: ' + ' '.join('url(http://x/%d)' % i for i in range(D)) + ' url(javascript:x)')
+    if shape == 'nested-safe':
+        return nest_case(['div', 'span', 'b', 'em'] * (D // 4 + 1))
+    if shape == 'nested-unsafe-same':
+        return nest_case(['object'] * D)
+    if shape == 'nested-mixed':
+        # D nested safe elements, each holding a dropped subtree (an unsafe element with the same
+        # unsafe element and a safe one inside) in front of the next level
+        if via == 'html':
+            return {'kind': 'html', 'cfg': cfg,
+                    'text': '<div><object>o<object>p</object><b>x</b></object>' * D + 'in' + '</div>t' * D}
+        evs = []
+        for _ in range(D):
+            evs += [['S', q('div'), []], ['S', q('object'), []], ['T', 'o', False], ['S', q('object'), []], ['T', 'p', False],
+                    ['E', q('object')], ['S', q('b'), []], ['T', 'x', False], ['E', q('b')], ['E', q('object')]]
+        evs.append(['T', 'in', False])
+        for _ in range(D):
+            evs += [['E', q('div')], ['T', 't', False]]
+        return {'kind': 'raw', 'events': evs, 'cfg': cfg}
+    if shape == 'nested-unsafe-by-attr':
+        return nest_case(['input'] * D, attrs_of=lambda i: [('type', 'password' if i == 0 else 'text')])
+    if shape == 'many-attrs':
+        from genshi.filters.html import HTMLSanitizer as S
+        safe = sorted(str(x) for x in S.SAFE_ATTRS)
+        attrs = []
+        for i in range(D):
+            k = i % 4
+            if k == 0:
+                attrs.append((safe[(i // 4) % len(safe)] if via == 'raw' else 'data-%d' % i, 'v%d' % i))
+            elif k == 1:
+                attrs.append(('on%d' % i, 'alert(%d)' % i))
+            elif k == 2:
+                attrs.append(('href' if via == 'raw' or i == 2 else 'x%d' % i, ('javascript:alert(%d)' if i % 8 == 2 else 'http://x/%d') % i))
+            else:
+                attrs.append(('style' if via == 'raw' or i == 3 else 'y%d' % i, 'color: red; width: expression(%d)' % i))
+        return elem_case('a', attrs)
+    if shape == 'long-value':
+        return elem_case('a', [('href', 'java' + '\t \n' * D + 'script:alert(1)'), ('title', 'a&amp;b ' * (5 * D)),
+                               ('src', 'http://x/' + 'a' * (40 * D))], inner_text='t' * (40 * D))
+    if shape == 'many-siblings':
+        tags = ['b', 'script', 'i', 'object']
+        if via == 'html':
+            return {'kind': 'html', 'cfg': cfg, 'text': ''.join('<%s>%d</%s>' % (tags[i % 4], i, tags[i % 4]) for i in range(2 * D))}
+        evs = []
+        for i in range(2 * D):
+            evs += [['S', q(tags[i % 4]), []], ['T', str(i), False], ['E', q(tags[i % 4])]]
+        return {'kind': 'raw', 'events': evs, 'cfg': cfg}
+    if shape == 'stray-ends':
+        return {'kind': 'raw', 'cfg': cfg,
+                'events': [['E', q(('b', 'object')[i % 2])] for i in range(D)] + [['S', q(('object', 'b', 'object')[i % 3]), []] for i in range(D)]}
+    raise ValueError(shape)
+
+
+def deep_shard(arg):
+    seed, idx, thorough = arg
+    res = Result()
+    case = deep_specs(seed, thorough)[idx]
+    conc = expand_deep(case)
+    res.evaluations += 1
+    res.count('kind:deep')
+    res.count('deep:%s/%s' % (case['shape'], case['via']))
+    res.count('deep-depth-total', case['depth'])
+    real = run_real(conc) if conc['kind'] in ('html', 'raw') else None
+    f = oracle_case(case, res, real)
+    if f:
+        res.failures.append(f)
+    res.nontrivial.add(json.dumps(case, sort_keys=True))
+    if real and real.get('status') == 'ok':
+        res.count('deep-events-in', len(real['inp']))
+        res.count('deep-events-out', len(real['out']))
+    compare([conc], [real], res, labels=[case])
+    res.streams = dict(('deep-' + k, v) for k, v in res.streams.items())
+    return res
+
+
 def run(ctx):
     nsh = 16
     per = ctx.n(2000, 18000)
@@ -904,6 +1139,9 @@ def run(ctx):
         res.merge(r)
     L = ctx.n(3, 4)
     for r in pmap('harness.props.c06', 'exhaustive_shard', [(i, nsh, L) for i in range(nsh)]):
+        res.merge(r)
+    ndeep = len(deep_specs(ctx.seed, ctx.thorough))
+    for r in pmap('harness.props.c06', 'deep_shard', [(ctx.seed, i, ctx.thorough) for i in range(ndeep)]):
         res.merge(r)
     res.rule = ('tag soup, raw event streams (a third ill nested), style texts, URIs and reference texts from an XSS '
                 'payload vocabulary, default / style-allowing / custom configurations; non-trivial = the filter changed '
@@ -931,6 +1169,9 @@ def in_domain(case):
     """the hypotheses of the generators (ASSUMPTIONS): shrinking must not leave them, or a shrunk
     input would 'fail' on the clean tree too"""
     try:
+        if case.get('kind') == 'deep':
+            return (case.get('shape') in DEEP_SHAPES and case.get('via') in DEEP_SHAPES[case['shape']]
+                    and isinstance(case.get('depth'), int) and 1 <= case['depth'] <= (16 if case['shape'] in DEEP_LOG else 20000))
         if case.get('kind') not in ('html', 'raw', 'css', 'uri', 'ent'):
             return False
         if case['kind'] != 'raw':
